@@ -5,6 +5,7 @@ import Seccomp.Driver.Disasm
 import Std.Data.HashMap
 import Seccomp.Driver.Loader
 import Seccomp.Driver.Raw
+import Seccomp.Driver.Text
 /-!
 # Line-protocol driver of the executable model (`lean_exe model`)
 
@@ -312,6 +313,7 @@ def handle (A : Arches) (line : String) : String :=
      | _ => "BAD-REQUEST")
   | "K" :: rest => Driver.Raw.handleK rest
   | "D" :: rest => DisasmDriver.handle rest
+  | "TXT" :: rest => Driver.Text.handle rest
   | _ => "BAD-REQUEST"
 
 partial def loop (A : Arches) (hin hout : IO.FS.Stream) : IO Unit := do
